@@ -85,9 +85,49 @@ func lemmaCall(fn *ssa.Function, inputs []NamedTerm, model map[string]string, im
 		return p.Name()
 	}
 	k := 0
+	byName := map[string]NamedTerm{}
+	for _, in := range inputs {
+		byName[in.Name] = in
+	}
+	pname := ""
 	var render func(t types.Type) (string, error)
 	render = func(t types.Type) (string, error) {
 		switch u := t.Underlying().(type) {
+		case *types.Slice:
+			// leaves: base, off, len, cap; elements were named <param>[i] by the falsifier
+			if k+4 > len(inputs) {
+				return "", fmt.Errorf("model is missing inputs")
+			}
+			lenIn := inputs[k+2]
+			k += 4
+			for k < len(inputs) && strings.HasPrefix(inputs[k].Name, pname+"[") {
+				k++ // named elements follow the slice header in the input list
+			}
+			lv, ok := modelBig(model[lenIn.T.Name])
+			if !ok {
+				lv = big.NewInt(0)
+			}
+			if !lv.IsInt64() || lv.Int64() < 0 || lv.Int64() > 4096 {
+				return "", fmt.Errorf("model needs a slice of length %s; only lengths up to 4096 are rebuilt", lv)
+			}
+			var parts []string
+			for i := int64(0); i < lv.Int64(); i++ {
+				// the first 8 elements are named in the model; the rest are left zero
+				val := "0"
+				if en, ok := byName[fmt.Sprintf("%s[%d]", pname, i)]; ok {
+					if mv, ok := model[en.T.Name]; ok {
+						val = mv
+					}
+				} else if i < 8 {
+					return "", fmt.Errorf("slice elements of %s are not part of the model", pname)
+				}
+				lit, ok := goLiteral(u.Elem(), val, qual)
+				if !ok {
+					return "", fmt.Errorf("cannot render element %q", val)
+				}
+				parts = append(parts, lit)
+			}
+			return fmt.Sprintf("%s{%s}", types.TypeString(t, qual), strings.Join(parts, ", ")), nil
 		case *types.Basic:
 			if k >= len(inputs) {
 				return "", fmt.Errorf("model is missing inputs")
@@ -136,6 +176,7 @@ func lemmaCall(fn *ssa.Function, inputs []NamedTerm, model map[string]string, im
 	}
 	var args []string
 	for _, p := range fn.Params {
+		pname = p.Name()
 		s, err := render(p.Type())
 		if err != nil {
 			return "", err
